@@ -1,3 +1,4 @@
 pub mod args;
+pub mod filter;
 pub mod trace;
 pub mod wire;
